@@ -1,6 +1,6 @@
 (* C12 -- Feed-forward layers compute their documented formulas; Linen and NNX agree. *)
 From Coq Require Import ZArith QArith.
-From Flaxm Require Import Lib.Harness Model.NdIndex Model.Layers Proofs.Layers Proofs.ConvT Proofs.Conv2 Proofs.NdIndex Proofs.DenseG Model.Dropout Proofs.Dropout.
+From Flaxm Require Import Lib.Harness Model.NdIndex Model.Layers Proofs.Layers Proofs.ConvT Proofs.Conv2 Proofs.NdIndex Proofs.DenseG Model.Dropout Proofs.Dropout Model.Einsum Proofs.Einsum.
 Open Scope Z_scope.
 
 (* Conv: what the code does (jnp.pad with the boundary rule, then a VALID convolution) is the documented direct sum
@@ -200,8 +200,33 @@ Example C12_dropout_example :
   map Qred (dropout false (1 # 2) [2; 3]%nat [(true, 2%nat)] [true; false; true] [1; 2; 3; 4; 5; 6]%Q) = [2; 0; 6; 8; 0; 12]%Q.
 Proof. vm_compute. reflexivity. Qed.
 
+(* Einsum (Model/Einsum.v): every entry of the layer is the stated contraction -- the sum, over all coordinates of the labels
+   that do not occur in the result, of x at the input-side coordinates times the kernel at the kernel-side coordinates -- plus
+   the bias entry addressed by the coordinates of the result axes whose label occurs in the kernel; for "ij,jk->ik" the
+   contraction is the matrix product *)
+Theorem C12_einsum_entry : forall sizes lhs rhs out x k bias o, (o < prod (shape_of sizes out))%nat ->
+  nth o (einsum_layer sizes lhs rhs out x k bias) 0 =
+  einsum_entry sizes lhs rhs out x k o + match bias with Some b => nth (bias_pos sizes rhs out o) b 0 | None => 0 end.
+Proof. exact einsum_layer_entry. Qed.
+Print Assumptions C12_einsum_entry.
+Theorem C12_einsum_matmul : forall (I J K : nat) x k i kk, (i < I)%nat -> (kk < K)%nat ->
+  einsum_entry [(0, I); (1, J); (2, K)]%nat [0; 1]%nat [1; 2]%nat [0; 2]%nat x k (i * K + kk) =
+  fold_right Z.add 0 (map (fun j => nth (i * J + j) x 0 * nth (j * K + kk) k 0) (seq 0 J)).
+Proof. exact einsum_matmul. Qed.
+Print Assumptions C12_einsum_matmul.
+Theorem C12_einsum_bias_follows_kernel_axes : forall sizes rhs out o o',
+  map (fun lc => if in_rhs rhs (fst lc) then snd lc else 0%nat) (asg_of sizes out o) =
+  map (fun lc => if in_rhs rhs (fst lc) then snd lc else 0%nat) (asg_of sizes out o') ->
+  bias_pos sizes rhs out o = bias_pos sizes rhs out o'.
+Proof. exact bias_pos_kernel_axes. Qed.
+Print Assumptions C12_einsum_bias_follows_kernel_axes.
+Example C12_einsum_example :
+  einsum_layer [(0, 2); (1, 3); (2, 2)]%nat [0; 1]%nat [1; 2]%nat [0; 2]%nat [1; 2; 3; 4; 5; 6] [1; 0; 0; 1; 1; 1] (Some [10; 20]) = [14; 25; 20; 31] /\
+  einsum_layer [(0, 2); (1, 3); (2, 2)]%nat [0; 1]%nat [1; 2]%nat [2; 0]%nat [1; 2; 3; 4; 5; 6] [1; 0; 0; 1; 1; 1] (Some [10; 20]) = [14; 20; 25; 31].
+Proof. vm_compute. split; reflexivity. Qed.
+
 (* NOT proved (decided per run against the independent numpy reference and, for Dense / Conv1D / Embed / pooling /
-   BatchNorm statistics, against this model): DenseGeneral batch_dims, Einsum axis arithmetic, 2-D ConvTranspose, ConvLocal,
+   BatchNorm statistics, against this model): DenseGeneral batch_dims, 2-D ConvTranspose, ConvLocal,
    Linen = NNX. *)
 Example C12_example :
   let c := mkConv [[[1]; [0]]; [[0]; [2]]; [[1]; [1]]] (Some [1]) 2 1 1 2 1 in
